@@ -78,11 +78,17 @@ def c04(tier, seed):
     styles.append(("fin_in_frame", {"bytes": [0x00]}))
     styles.append(("fin_in_frame", {"bytes": [0x40]}))
     styles.append(("bad_capsule", {"bytes": close_capsule_frame(1, b"r" * 1025)}))
+    # the 1024 limit is in bytes, not characters
+    styles.append(("capsule", {"bytes": close_capsule_frame(9, "\u00e9".encode() * 512)}))
+    styles.append(("capsule", {"bytes": close_capsule_frame(9, "\U0001F600".encode() * 256)}))
+    styles.append(("bad_capsule", {"bytes": close_capsule_frame(1, "\u00e9".encode() * 513)}))
+    styles.append(("bad_capsule", {"bytes": close_capsule_frame(1, "\u00e9".encode() * 600)}))
+    styles.append(("bad_capsule", {"bytes": close_capsule_frame(1, "\U0001F600".encode() * 257)}))
     styles.append(("bad_capsule", {"bytes": close_capsule_frame(1, b"\xff\xfe")}))
     styles.append(("bad_capsule", {"bytes": close_capsule_frame(1, b"\xe2\x82")}))
     styles.append(("bad_capsule", {"bytes": frame(0, capsule(0x2843, b"\x00\x00\x01"))}))
     styles.append(("bad_capsule", {"bytes": frame(0, capsule(0x2843, b""))}))
-    for c in [0, 63, 64, 16383, 16384, (1 << 30) - 1, 1 << 30, (1 << 62) - 1]:
+    for c in [0, 63, 64, 16383, 16384, (1 << 30) - 1, 1 << 30, (1 << 32) + 12345, (1 << 40) + 7, (1 << 62) - 1]:
         for r in [b"", b"bye", bytes(range(256))[:200]]:
             styles.append(("quic_close", {"code": c, "reason": list(r)}))
     points = ["pending", "streams", "later_only", "idle_long"]
@@ -613,6 +619,37 @@ def _ctrl_conts():
     return S
 
 
+def _ctrl_firsts():
+    """Whole control streams, from the type byte on."""
+    st = frame(4, SETTINGS_PAYLOAD)
+    extra = SETTINGS_PAYLOAD + varint(0x21 + 0x1F * 9) + varint(7) + varint(0x4D2) + varint(0x33) + varint((1 << 40) + 9) + varint(0)
+    S = []
+    S.append(("settings", [0x00] + st, "open"))
+    S.append(("settings_extra_ids", [0x00] + frame(4, extra), "open"))
+    S.append(("settings_grease", [0x00] + st + frame(0x21, b"g") + frame(GREASE_T[3], b""), "open"))
+    for i, t in enumerate(GREASE_T[:4]):
+        S.append(("grease%d_settings" % i, [0x00] + frame(t, b"g" * i) + st, "open"))
+    S.append(("grease_only", [0x00] + frame(0x21, b""), "open"))
+    S.append(("unknown_settings", [0x00] + frame(0x0F, b"zz") + st, "open"))
+    S.append(("data_first", [0x00] + frame(0, b"d") + st, "open"))
+    S.append(("headers_first", [0x00] + frame(1, [0, 0]) + st, "open"))
+    S.append(("wt_first", [0x00] + wt_bi_preamble(0) + st, "open"))
+    S.append(("settings_twice", [0x00] + st + st, "open"))
+    S.append(("settings_grease_data", [0x00] + st + frame(0x21, b"") + frame(0, b"x"), "open"))
+    S.append(("settings_reserved", [0x00] + frame(4, varint(0x02) + varint(0) + SETTINGS_PAYLOAD), "open"))
+    S.append(("settings_dup", [0x00] + frame(4, SETTINGS_PAYLOAD + varint(0x08) + varint(1)), "open"))
+    S.append(("settings_trunc_pair", [0x00] + frame(4, SETTINGS_PAYLOAD + [0x40]), "open"))
+    S.append(("settings_oversize", [0x00] + varint(4) + varint(4097) + [0] * 8, "open"))
+    S.append(("type_only_fin", [0x00], "fin"))
+    S.append(("type_only_reset", [0x00], "reset"))
+    S.append(("type_only_open", [0x00], "open"))
+    S.append(("partial_settings_fin", [0x00] + st[:5], "fin"))
+    S.append(("partial_settings_open", [0x00] + st[:5], "open"))
+    S.append(("settings_fin", [0x00] + st, "fin"))
+    S.append(("settings_reset", [0x00] + st, "reset"))
+    return S
+
+
 def _req_conts():
     S = []
     S.append(("settings", frame(4, []), "open"))
@@ -622,6 +659,14 @@ def _req_conts():
     S.append(("trailers", frame(1, [0, 0]), "open"))
     S.append(("unknown_capsule", frame(0, capsule(0x1234, b"abc")), "open"))
     S.append(("drain_capsule", frame(0, capsule(0x78AE, b"")), "open"))
+    S.append(("trunc_fin", [0x00, 0x08, 0x68, 0x43], "fin"))
+    S.append(("trunc_type_fin", [0x40], "fin"))
+    S.append(("grease_trunc_fin", frame(0x21, b"ok") + [0x21, 0x03, 0x00], "fin"))
+    S.append(("oversize", varint(0) + varint(4097) + [0] * 4, "open"))
+    S.append(("oversize_grease", varint(0x21) + varint(1 << 20), "open"))
+    S.append(("wt_badsid", wt_bi_preamble(2), "open"))
+    S.append(("reset", [], "reset"))
+    S.append(("bad_close_capsule", close_capsule_frame(1, b"\xff\xfe"), "open"))
     return S
 
 
@@ -698,6 +743,29 @@ def _c12(tier, seed, burn):
                       [by["unknown_uni3"], byb["get_request"]]]
         for p in pairs:
             build(role, p, {"depth": 2})
+        # the peer's control stream from its first byte (no automatic SETTINGS): what may and may not
+        # come first.  Every write is one piece (segmentation is C05's subject).
+        if burn == 0:
+            for name, bs, end in _ctrl_firsts():
+                steps = [step("peer", "open_uni", tag="mctrl"),
+                         step("peer", "write", tag="mctrl", bytes=bs), sleep(60)]
+                if end in ("fin", "reset"):
+                    steps.append(step("peer", end, tag="mctrl", code=v62(0x10C)) if end == "reset"
+                                 else step("peer", "fin", tag="mctrl"))
+                steps.append(sleep(120))
+                if role == "server":
+                    steps += [step("peer", "open_bi", tag="hs"),
+                              step("peer", "write", tag="hs", bytes=frame(1, request_headers()))]
+                else:
+                    steps += [step("peer", "wait_handle", tag="in0", ms=800),
+                              step("peer", "write", tag="in0", bytes=frame(1, qpack_section([q_idx(25)])))]
+                steps += [step("app", "adopt", ms=800),
+                          step("peer", "open_uni", tag="probe"),
+                          step("peer", "write", tag="probe", bytes=wt_uni_preamble(0) + [0x70]),
+                          step("app", "accept_uni", tag="probe", ms=2500)]
+                out.append({"scn": "C12-%04d" % n, "role": role, "peer": "raw", "manual": True, "settle_ms": 120,
+                            "meta": {"prop": "C12", "names": ["mctrl_" + name], "depth": 1}, "steps": steps})
+                n += 1
         if tier == "thorough":
             pool = [x for x in singles if x[1] not in ("ctrl_dup",)]
             for _ in range(150):
